@@ -55,6 +55,7 @@ def run(ctx):
     ctx.cov["rule"] = ("script = fork.Fold with par in {1,2,3,4,8}, input capacity 0/1/2/5, commutative monoid in {sum, prod mod p, max, min, bit-and, bit-or} (zero and non-zero "
                        "identities), inputs of length 0..8 incl. empty and shorter than par, sends/close interleaved with receives on the result channel; non-trivial = par >= 2 and at least 2 elements")
     ctx.assumptions += ls.ASSUME
+    ls.regen_stages(ctx, pipe=False, fork=True)
     ctx.prove()
     if ctx.thorough():
         ctx.leanchecker()
